@@ -101,6 +101,7 @@ class FakeNet:
         else:
             c = Conn([], self.default)   # unscripted connection: peer says nothing
         c.family = family
+        c.needs_timeout = True         # a stalled read ends only if the tool gave this socket a timeout (stubs.Hang otherwise)
         self.made.append(c)
         return c
 
@@ -112,6 +113,71 @@ class FakeNet:
                 raise r
             return [x for x in r if family in (0, x[0])]
         return [(_socket.AF_INET, _socket.SOCK_STREAM, 6, '', (host, port))]
+
+
+class Listener:
+    """a listening socket of ListenNet: accept() hands out the scripted client connection; as in CPython, the accepted socket does NOT inherit the listener's
+    timeout (it starts blocking) - a stalled client then needs settimeout() on the ACCEPTED socket."""
+    _fd = 100
+
+    def __init__(self, net, family):
+        self.net, self.family = net, family
+        Listener._fd += 1
+        self.fd = Listener._fd
+        self.timeout = None
+        self.closed = False
+
+    def setsockopt(self, *a):
+        pass
+
+    def bind(self, addr):
+        if self.family == _socket.AF_INET6 and not self.net.v6:
+            raise OSError(97, 'Address family not supported by protocol')
+        self.bound = addr
+
+    def listen(self, *a):
+        pass
+
+    def fileno(self):
+        return self.fd
+
+    def settimeout(self, t):
+        self.timeout = t
+
+    def accept(self):
+        c = self.net.client
+        c.needs_timeout = True
+        c.timeout = None
+        self.net.made.append(c)
+        return c, ('192.0.2.33', 40000)
+
+    def shutdown(self, how):
+        pass
+
+    def close(self):
+        self.closed = True
+
+
+class ListenNet(FakeNet):
+    """socket-module stand-in for client audits (listen_and_accept): one scripted client connects"""
+
+    def __init__(self, client, v6=True):
+        FakeNet.__init__(self, [])
+        self.client, self.v6 = client, v6
+        self.listeners = []
+
+    def socket(self, family=_socket.AF_INET, type=_socket.SOCK_STREAM, *a):
+        l = Listener(self, family)
+        self.listeners.append(l)
+        return l
+
+
+class SelectStub:
+    """select stand-in: the first listening socket is readable at once (a client is waiting)"""
+    @staticmethod
+    def select(r, w, x, timeout=None):
+        r = list(r)
+        return (r[:1], [], [])
 
 
 class ConcJson:
@@ -195,6 +261,8 @@ def run_audit(M, conns, host='target', port=22, json=False, ssh1=True, ssh2=True
     aconf.colors = False
     if target_list:
         aconf.target_list = list(target_list)
+    if client_audit:
+        aconf.client_audit = True
     if policy is not None:
         aconf.policy = policy
     if extra:
@@ -206,7 +274,8 @@ def run_audit(M, conns, host='target', port=22, json=False, ssh1=True, ssh2=True
     M.ssh2_kexdb.SSH2_KexDB.DB_PER_THREAD.clear()
     M.ssh1_kexdb.SSH1_KexDB.DB_PER_THREAD.clear()
     cap = io.StringIO()
-    with patched(M.ssh_socket, socket=net):
+    more = {'select': SelectStub} if isinstance(net, ListenNet) else {}
+    with patched(M.ssh_socket, socket=net, **more):
         with contextlib.redirect_stdout(cap):
             r = guarded(M.ssh_audit.audit, out, aconf, None, print_target)
     lines = list(out.buffer) + list(out.section)
